@@ -232,6 +232,7 @@ def _chunk_body(prop, seed, tier, indices):
             'viol': [],
             'nviol': 0,
             'samples': [],
+            'traces': [],
             'error': None,
         }
         seen = set()
@@ -247,6 +248,7 @@ def _chunk_body(prop, seed, tier, indices):
             out['distinct'] |= ctx.distinct
             out['scheds'].add(hash_key(tuple(_opkind(o) for o in record.get('ops', []))))
             out['nviol'] += len(ctx.violations)
+            out['traces'].append((i, ctx.trace_digest()))
             for v in ctx.violations:
                 if vclass(v) not in seen:
                     seen.add(vclass(v))
@@ -504,6 +506,7 @@ def run_check(prop, tier, seed=None, runs=None, wall=None, workers=None, chunk=N
         'viol': [],
         'nviol': 0,
         'samples': [],
+        'traces': [],
     }
     truncated = False
     errors = []
@@ -555,6 +558,7 @@ def run_check(prop, tier, seed=None, runs=None, wall=None, workers=None, chunk=N
                 for k in ('states', 'distinct', 'scheds'):
                     agg[k] |= out[k]
                 agg['viol'].extend(out['viol'])
+                agg['traces'].extend(out['traces'])
                 if len(agg['samples']) < 3:
                     agg['samples'].extend(out['samples'])
             submit_more()
@@ -629,6 +633,7 @@ def run_check(prop, tier, seed=None, runs=None, wall=None, workers=None, chunk=N
             'faults_fired': {k[6:]: n for k, n in sorted(agg['stats'].items()) if k.startswith('fault:')},
             'probes_hit': {k[6:]: n for k, n in sorted(agg['stats'].items()) if k.startswith('probe:')},
             'counters': {k: n for k, n in sorted(agg['stats'].items()) if not k.startswith(('fault:', 'probe:'))},
+            'runs_digest': hashlib.sha256(repr(sorted(agg['traces'])).encode()).hexdigest()[:16],
             'distinct_states': len(agg['states']),
             'distinct_schedules': len(agg['scheds']),
             'undecided': dict(sorted(agg['undecided'].items())),
@@ -652,7 +657,7 @@ def run_check(prop, tier, seed=None, runs=None, wall=None, workers=None, chunk=N
     print(
         f'{prop} {tier}: runs={agg["runs"]} ticks={agg["ticks"]} faults={sum(evidence["coverage"]["faults_fired"].values())} '
         f'distinct={len(agg["distinct"])} states={len(agg["states"])} wall={wall_s:.1f}s '
-        f'violations={unlisted} known={len(known_hits)} truncated={truncated}',
+        f'violations={unlisted} known={len(known_hits)} truncated={truncated} runs_digest={evidence["coverage"]["runs_digest"]}',
         flush=True,
     )
     return 1 if unlisted else 0
